@@ -453,7 +453,9 @@ pub fn validate(format: ExportFormat, value: &NickelValue) -> Result<(), Pointed
         match value.content_ref() {
             // TOML doesn't support null values
             ValueContentRef::Null
-                if format == ExportFormat::Json || format == ExportFormat::Yaml =>
+                if format == ExportFormat::Json
+                    || format == ExportFormat::Yaml
+                    || format == ExportFormat::YamlDocuments =>
             {
                 Ok(())
             }
